@@ -100,7 +100,15 @@ func (g *Gen) scalar() reflect.Type {
 	return scalars[r.Intn(len(scalars))]
 }
 
-var numberPool = []int{1, 2, 3, 15, 16, 17, 127, 128, 255, 256, 257, 2047, 2048, 2049, 16383, 16384, 65535}
+// numberPool holds field numbers around every power of two up to 2^16 (tag length steps at
+// 16 and 2048, table and bitmap sizes at other powers) .
+var numberPool = func() []int {
+	p := []int{1, 2, 3}
+	for k := 2; k <= 16; k++ {
+		p = append(p, 1<<k-1, 1<<k, 1<<k+1)
+	}
+	return p[:len(p)-2] // up to 65535
+}()
 var bigNumberPool = []int{65536, 65537, 131071, 1 << 20, 1<<29 - 1}
 
 // Message builds a struct type.
